@@ -288,6 +288,10 @@ func (b *EndpointBuilder) WriteHash(h hash.Hash) {
 	}
 	h.WriteString(util.LocalityToString(b.locality))
 	h.Write(Separator)
+	if b.proxy != nil {
+		h.WriteString(strconv.Itoa(int(b.proxy.GetIPMode())))
+		h.Write(Separator)
+	}
 	if len(b.failoverPriorityLabels) > 0 {
 		h.Write(b.failoverPriorityLabels)
 		h.Write(Separator)
